@@ -10,6 +10,7 @@ package policy
 //@ extfunc errors.Is
 //@   ensures result == ufb("errors.Is", err, target)
 //@   ensures err == nil && target != nil ==> !result
+//@   ensures err != nil && err == target ==> result
 //@   modifies nothing
 //@ extfunc reflect.DeepEqual
 //@   ensures result == ufb("reflect.DeepEqual", x, y)
